@@ -5,7 +5,9 @@ import TxdbusModel.Obj.TreeProps
 Driver for property C16 (exported-object tree).  One operation per line, one output line each.
 Strings travel as the hex of their code points (6 digits each, "-" = empty string).
 
-  reset                                      -> ok
+  reset                                      -> ok       (every handler's table empty, handler 0 current)
+  handler <k>                                -> ok       (the lines below address handler k's table from now on;
+                                                          the tables are `Tree.Multi.Tables`, written with `Multi.set`)
   export <path> <sendable 0|1> (<iface>=<token>)*
                                              -> added <hdrPath> <argPath> <iface>=<token>,… | raised
   unexport <path>                            -> removed <hdrPath> <argPath> <ifaces> | raised
@@ -263,7 +265,8 @@ def pline (d : PS) (ws : List String) : PS × String :=
   | _ => (d, "badinput")
 
 structure DS where
-  abs : Exports := []
+  tabs : Multi.Tables := Multi.init     -- one table per live handler
+  cur : Nat := 0                        -- the handler the lines address
   ps : PS := {}
 
 def stepAll (d : DS) (line : String) : DS × String :=
@@ -272,9 +275,16 @@ def stepAll (d : DS) (line : String) : DS × String :=
     if w.startsWith "p" && w != "ping" then
       let r := pline d.ps (w :: ws)
       ({ d with ps := r.1 }, r.2)
+    else if w == "reset" then ({ d with tabs := Multi.init, cur := 0 }, "ok")
+    else if w == "handler" then
+      match ws with
+      | [k] => match k.toNat? with
+        | some k => ({ d with cur := k }, "ok")
+        | none => (d, "badinput")
+      | _ => (d, "badinput")
     else
-      let r := step d.abs line
-      ({ d with abs := r.1 }, r.2)
+      let r := step (d.tabs d.cur) line
+      ({ d with tabs := Multi.set d.tabs d.cur r.1 }, r.2)
   | [] => (d, "badinput")
 
 end C16
